@@ -1083,6 +1083,75 @@ def trigger_cases(rng=None, n_random=0):
     return out
 
 
+SOUP = [
+    # any-objects, any, casts
+    "let o# = new { ? };", "let o# = new { ? }; o#.set(\"k\", 1);", "let o# = new { ? }; let a# = o#.get(\"k\");",
+    "let o# = new { ? }; let b#: int = o#[\"k\"] as int;", "let o# = new { ? }; let c# = o#->k;", "let o# = new { ? }; let d# = o#~>k as str;",
+    "let o# = new { ? }; let d# = o#~>k;", "let o# = new { ? }; println(o#[\"k\"]);", "let o# = new { ? }; println(o#[1]);",
+    "let o# = new { ? }; println(o#.keys(), o#.to_json(), o#.get_type(\"k\"));", "let o# = new { ? }; let e#: int = o#.get(\"k\").unwrap() as int;",
+    "let j# = \"1\".parse_json() as int;", "let j# = \"1\".parse_json();", "let j#: int = \"1\".parse_json();", "println(\"1\".parse_json());",
+    "let o# = new { a: 1 }; let p# = o# as { ? };", "let o# = new { a: 1 }; println(o#[\"a\"], o#.keys());", "let o# = new { a: 1 }; let k# = \"a\"; let v# = o#[k#] as int;",
+    "let o# = new { a: 1 }; println(o#->a);", "println(5->k);", "println(\"a\"~>b);", "let o# = new { keys: 1 };", "let o# = new { a: 1, a: 2 };",
+    # host values
+    "let t# = time.now(); println(t#.year, t#.unix_milli);", "time.sleep(1.5);", "time.sleep(1);", "let s# = fmt(\"%d\", 1);", "let s# = fmt(1);", "let s# = fmt();",
+    "assert(true);", "assert(1);", "debug(1, \"a\");", "println(log(1.0, 2.0));", "println(log(1, 2.0));", "let t# = time.add_days(time.now(), 2);",
+    "println(time.nope);", "println(print);", "let p# = print; p#(1);", "let b# = print == println;",
+    # ranges, lists, strings, options
+    "let r# = 1..5; println(r#.start, r#.rev().diff(), r#.to_string());", "let r# = 1..=\"a\";", "for i# in (1..3).rev() { println(i#); }",
+    "let l#: [int] = []; l#.sort();", "let l# = [true]; l#.sort();", "let m# = [[1], [2]]; m#[0][0] = 1; println(m#[0].len());", "let m# = [[1], [\"a\"]];",
+    "let l# = [1]; l#.concat([2]); l#.insert(0, 5); l#.remove(0); println(l#.pop(), l#.pop_front(), l#.last());", "let l# = [1]; l#.push(\"a\");",
+    "println(\"abc\".replace(\"a\", \"b\").repeat(2).split(\",\").join(\";\"));", "println(\"a\".substring(1), \"a\".compare_lev(\"b\"), \"1\".parse_int());",
+    "println(\"a\".contains(1));", "println((1).to_range(), (1.5).trunc(), (1.5).is_int(), true.to_string());",
+    "let q# = ?1; println(q#.unwrap_or(2), q#.is_some(), q#.expect(\"x\"), q#.to_string());", "let q# = ?1; println(q#.unwrap_or(\"s\"));", "let q#: ?int = none; println(q#.is_none());",
+    "let q# = ?none;", "let q#: ??int = ?none;", "let q# = [none];", "let q#: [?int] = [none];", "let q# = (none);", "let q#: ?int = (none);",
+    # closures and function types
+    "let f# = fn(a: int) -> int { a }; let g#: fn(a: int) -> int = f#; println(g#(1));", "let f# = fn(a: int) -> int { a }; let g#: fn(b: int) -> int = f#;",
+    "let f# = fn(a: int, b: str) { }; let g#: fn(b: str, a: int) -> null = f#;", "let f# = fn() { }; f# = fn() { };", "let f# = fn() { }; let l# = [f#, f#];",
+    "let f# = fn() -> int { return 1; }; println(f#() + 1);", "let f# = fn() -> int { return \"s\"; };", "let f# = fn() { return 1; };",
+    "let f# = fn(a: int) { }; f#(1, 2);", "let f# = fn(a: Zz) { };", "let f# = fn() -> Zz { };", "let f# = fn(a: int) -> fn() -> int { fn() -> int { a } }; println(f#(1)());",
+    "let f# = fn() { }; println(f# as fn() -> null);", "let f# = fn() { }; println(f#());", "println(if true { print } else { println });",
+    # casts
+    "let q# = (1 as float) as int; println(q# as bool, true as float);", "println(\"a\" as int);", "println(1 as str);", "println([1] as [float]);", "println(1 as any);",
+    "println([] as [int]);", "println(none as ?int);", "println((?1) as ?float);", "println(1 as Zz);",
+    # control flow
+    "let v# = match 1 { 1 => \"a\", _ => \"b\" };", "let v# = match 1 { 1 => \"a\" };", "let v# = match 1 { _ => 1, 2 => 3 };", "let v# = match \"a\" { 1 => 2, _ => 3 };",
+    "let v# = match 1 { 1 => 2, 2 => \"s\", _ => 3 };", "match 1 { 1 => println(1) }", "match 1 { }", "let v# = match true { true => 1, false => 2 };",
+    "let v# = try { 1 } catch e# { \"s\" };", "let v# = try { throw(1) } catch e# { println(e#.message, e#.line, e#.filename); 2 };", "let v# = try { 1 } catch e# { e#.nope };",
+    "let v# = if true { 1 };", "let v# = if true { 1 } else { throw(\"x\") };", "let v# = if 1 { 1 } else { 2 };", "let v#: int = { return; };", "let v# = { 1 };", "let v# = { let w# = 2; w# };",
+    "loop { break; }", "loop { let w# = 1; if w# > 2 { continue; } break; }", "while true { 1 }", "for c# in \"abc\" { println(c#.len()); }", "for c# in 5 { }", "for c# in [[1]] { println(c#[0]); }",
+    "let v# = -throw(\"x\");", "throw(\"x\")();", "let v# = throw(\"x\") + 1;", "let v# = [throw(\"x\"), 1];", "println(throw(\"x\"));", "throw();", "throw(1, 2);",
+    "let v# = 1; v# = throw(\"x\");", "let v# = 1; v# += 1.5;", "let v# = 1.5; v# **= 2.0;", "let v# = true; v# |= false; v# += true;", "let v# = \"s\"; v# += \"t\"; v# -= \"u\";",
+    "let v# = [1]; v# = [2]; v# += [3];", "let v# = null;", "let v# = null; println(v# == null);", "println(null);", "let v# = 1; println(v# = 2);",
+    "let v# = 1 + 2 * 3 ** 2 % 4 << 1 | 2 & 3 ^ 4;", "let v# = 1 < 2 && 2.5 >= 1.5 || \"a\" == \"b\";", "let v# = 1 && 2;", "let v# = [1] == [2]; let w# = [1] < [2];", "let v# = !1; let w# = !1.5;",
+    "let v# = zz_undefined;", "zz_undefined(1);", "let v#: Zz = 1;", "let v#: [Zz] = [];", "let v#: { a: int, a: str } = new { a: 1 };", "let v#: fn(a: int, a: int) -> int = fn(a: int) -> int { 1 };",
+    "let v#: { a: int } = new { a: 1 }; println(v#.a);", "let v#: { a: int } = new { a: \"s\" };", "let v#: any = 1;", "let v#: [any] = [1];", "let v#: ?any = ?1;",
+]
+
+
+def soup_cases(rng, n):
+    """main bodies assembled from assorted well- and ill-typed snippets (tie only)."""
+    out = []
+    for _ in range(n):
+        k = rng.randrange(1, 7)
+        parts = []
+        for j in range(k):
+            parts.append(rng.choice(SOUP).replace("#", str(j)))
+        wrap = rng.random()
+        body = " ".join(parts)
+        if wrap < 0.15:
+            body = "loop { " + body + " break; }"
+        elif wrap < 0.3:
+            body = "let zz_h = fn() { " + body + " }; zz_h();"
+        ret = rng.random()
+        if ret < 0.2:
+            out.append("fn zz_f(a: int) -> int { " + body + " a }\nfn main() { println(zz_f(1)); }\n")
+        elif ret < 0.3:
+            out.append("let zz_g = 1;\nfn main() { " + body + " println(zz_g); }\n")
+        else:
+            out.append("fn main() { " + body + " }\n")
+    return out
+
+
 def fixed_cases():
     """(id, text, expect_error, what). Witnesses of the analyzer findings and rule corner cases."""
     return [
